@@ -62,6 +62,7 @@ def run(ck):
     ck.rule("C19.R1", "integer encoding of levels/filters is strictly monotone; named consts match", floor=20)
     ck.rule("C19.R2", "comparison body == op(enc(other), enc(self)) for its own operator", floor=24)
     ck.rule("C19.R3", "Display/as_str and FromStr tables inverse; nothing else accepted", floor=30)
+    ck.rule("C19.R5", "a LevelFilter used as a layer / per-layer filter enables `level <= self` and publishes itself as the max-level hint, OFF included (as C08.R4)", floor=4)
     ck.rule("C19.R4", "set_max/current inverse; enable tests are level <= filter", floor=20)
     for cfg in configs:
         F = Facts(cfg)
@@ -72,6 +73,9 @@ def run(ck):
         r2_operators(ck, F, tag)
         r3_text(ck, F, tag, enc)
         r4_published(ck, F, tag, enc, census=(cfg == "default"))
+        if cfg == "default":
+            from rules import C08
+            C08.levelfilter_rule(ck, F, rid="C19.R5")
 
 
 # ------------------------------------------------------------------ R1
